@@ -61,20 +61,20 @@ class VExc(Exception):
 
 
 class VSlots:
-    """The 'hostile' kind of the model: a value whose attributes cannot be read at all (reading its attribute dictionary
-    fails, it declares no slots of its own to look into). Recorded with its type and text, no children."""
-    __slots__ = ('__dict__',)
+    """The 'hostile' kind of the model: a value whose attributes cannot be read at all (whoever asks for its attribute
+    dictionary - by any route - gets an error that is not an AttributeError). Recorded with its type and text, no
+    children."""
+    __slots__ = ('n',)
 
     def __init__(self, n):
         object.__setattr__(self, 'n', n)
 
-    def __getattribute__(self, name):
-        if name == '__dict__':
-            raise RuntimeError('the attributes of this value cannot be read')
-        return object.__getattribute__(self, name)
+    @property
+    def __dict__(self):
+        raise RuntimeError('the attributes of this value cannot be read')
 
     def __str__(self):
-        return 'VSlots#%d' % self.n
+        return 'VSlots#%d' % object.__getattribute__(self, 'n')
 
 
 class VObjS:
